@@ -103,6 +103,24 @@ fn write_archive<W: Write>(spec: &Spec, sink: W) -> Result<(u64, u64), String> {
 fn measure(spec: &Spec) -> i32 {
     mem::enable_counting();
     let result: Result<(i64, u64, u64, u64), String> = (|| {
+        if spec.op == "write_short_source" {
+            // the source ends after 1 MiB although spec.mib MiB were announced: the call must fail (C09) and must
+            // not buy memory in proportion to what is missing
+            let base = mem::live_signed();
+            mem::reset_peak();
+            let mut sink = CountSink(0);
+            let cfg = Cfg::lvl(spec.layers, 1);
+            let mut w = ArchiveWriter::from_config(&mut sink, cfg.writer_config()).map_err(|e| format!("{e:?}"))?;
+            let id = w.start_file("big").map_err(|e| format!("{e:?}"))?;
+            let src = GenReader { file: 0, pos: 0, end: MIB as u64, e: Entropy::Noise };
+            let r = w.append_file_content(id, (spec.mib * MIB) as u64, src);
+            if r.is_ok() {
+                return Err("append_file_content reported success for a source shorter than announced".to_string());
+            }
+            let peak = mem::peak_signed() - base;
+            drop(w);
+            return Ok((peak, 1, 1, (spec.mib * MIB) as u64));
+        }
         if spec.op == "write" || spec.op == "write_stream" {
             let base = mem::live_signed();
             mem::reset_peak();
@@ -219,7 +237,7 @@ pub fn run(started: Instant) -> i32 {
     }
     let thorough = infra::thorough();
     let sizes: Vec<usize> = if thorough { vec![4, 16, 64, 256, 1024] } else { vec![4, 16, 64] };
-    let ops = ["write", "write_stream", "repair", "repair_cut", "linear_extract", "linear_subset", "read_files"];
+    let ops = ["write", "write_stream", "write_short_source", "repair", "repair_cut", "linear_extract", "linear_subset", "read_files"];
     let mut specs = Vec::new();
     for op in ops {
         for l in L4::ALL {
@@ -233,11 +251,11 @@ pub fn run(started: Instant) -> i32 {
                     if *s == 1024 && (inter || (op != "write" && l != L4::Both)) {
                         continue;
                     }
-                    if op == "write_stream" && inter {
+                    if (op == "write_stream" || op == "write_short_source") && inter {
                         continue;
                     }
                     // the variants of an operation: layers none and both in the quick tier
-                    if !thorough && matches!(op, "write_stream" | "repair_cut" | "linear_subset") && matches!(l, L4::Compress | L4::Encrypt) {
+                    if !thorough && matches!(op, "write_stream" | "write_short_source" | "repair_cut" | "linear_subset") && matches!(l, L4::Compress | L4::Encrypt) {
                         continue;
                     }
                     // quick tier: every operation on layers none and both; the single-layer combinations for write only
@@ -334,7 +352,7 @@ pub fn run(started: Instant) -> i32 {
         rep,
         Meta {
             level: "exploration",
-            rule: "production-constant build; for each operation {write from a generator to a counting sink (add_file / interleaved appends / io::copy into StreamWriter), repair of the intact archive and of the archive cut at 3/4, linear extraction of all files and of every other file (none of a single-file archive: the skip path), per-file read} x 4 layer combinations x {1 file, 64 files interleaved in 4 KiB pieces} x size ladder, one process per point with a counting global allocator: peak live heap above the level at the start of the operation must stay under 64 MiB + 512 B x (files + runs), everything must actually stream through, and the peak must not grow between 16 MiB, 64 MiB (and 256 MiB, 1 GiB in thorough) beyond 5 % + 1 MiB + the index growth. The archive bytes read by repair/extract are held outside the measured interval".to_string(),
+            rule: "production-constant build; for each operation {write from a generator to a counting sink (add_file / interleaved appends / io::copy into StreamWriter / a source that ends after 1 MiB of the announced size: the call must fail without allocating in proportion to what is missing), repair of the intact archive and of the archive cut at 3/4, linear extraction of all files and of every other file (none of a single-file archive: the skip path), per-file read} x 4 layer combinations x {1 file, 64 files interleaved in 4 KiB pieces} x size ladder, one process per point with a counting global allocator: peak live heap above the level at the start of the operation must stay under 64 MiB + 512 B x (files + runs), everything must actually stream through, and the peak must not grow between 16 MiB, 64 MiB (and 256 MiB, 1 GiB in thorough) beyond 5 % + 1 MiB + the index growth. The archive bytes read by repair/extract are held outside the measured interval".to_string(),
             exhaustive: false,
             bounds: json!({"size_ladder_mib": sizes, "points": specs.len(), "note": "the size dimension is a ladder, a bound - not 'all sizes'"}),
             assumptions: vec!["noise/pattern contents, brotli level 1".to_string()],
